@@ -1,6 +1,7 @@
 mod asm;
 mod dev;
 mod dhcp;
+mod dns;
 mod frag;
 mod frames;
 mod neigh;
@@ -27,6 +28,8 @@ fn main() {
         "frag-random" => frag::random(&args),
         "neigh-random" => neigh::random(&args),
         "dhcp-random" => dhcp::random(&args),
+        "dns-random" => dns::random(&args),
+        "dnsname-replay" => dns::name_replay(&args),
         "pollat-random" => pollat::random(&args),
         "tcp-pair" => tcp::pair(&args),
         "tcp-peer-replay" => tcp::peer_replay(&args),
